@@ -125,7 +125,8 @@ fn child(sc_path: &str, out_path: &str) -> i32 {
     let stats = Arc::new(Mutex::new(ChildStats::default()));
     let first: Arc<Mutex<Option<(RunResult, Vec<Ev>)>>> = Arc::new(Mutex::new(None));
     let mut builder = loom::model::Builder::new();
-    builder.preemption_bound = Some(sc.preemption_bound);
+    // a bound of 1000 or more stands for "no bound": every interleaving (DPOR) of the scenario
+    builder.preemption_bound = if sc.preemption_bound >= 1000 { None } else { Some(sc.preemption_bound) };
     builder.max_branches = 200_000;
     builder.max_threads = 5;
     let sc2 = sc.clone();
@@ -340,6 +341,11 @@ fn c05_scenarios(thorough: bool) -> Vec<Scenario> {
         v.push(s);
     }
     if thorough {
+        // no preemption bound at all: every interleaving (DPOR) of feeder, one worker and the hashing thread
+        v.push(mk("unbounded_cfg_w1_f0", 1, None, 1, data(0), 0, false, 1000));
+        v.push(mk("unbounded_cfg_w1_f1", 1, None, 1, data(1), 0, false, 1000));
+    }
+    if thorough {
         for w in 1..=2usize {
             for f in 1..=3usize {
                 v.push(mk(&format!("pb3_cfg_w{w}_f{f}"), w, None, w, data(f), 3, false, 3));
@@ -465,6 +471,12 @@ fn c06_scenarios(thorough: bool) -> Vec<Scenario> {
         let mut s = mk(&format!("nofill_w2_f2_{name}"), 2, None, 2, script, 0, false, 2);
         s.fill_at_end = false;
         v.push(s);
+    }
+    if thorough {
+        // no preemption bound at all, one worker, one block: every interleaving of every fault script
+        for (name, script) in fault_scripts(1) {
+            v.push(mk(&format!("unbounded_w1_f1_{name}"), 1, None, 1, script, 0, false, 1000));
+        }
     }
     if thorough {
         for w in 1..=2usize {
@@ -753,6 +765,7 @@ fn run_parent(prop: &str, tier: &str, seed: u64, report: Option<String>, replay:
             "states": states, "transitions": transitions, "schedules": schedules, "distinct_traces": distinct,
             "traces_validated_against_impl": validated, "out_of_order_completions": ooo,
             "max_preemptions_completed": if thorough { 3 } else { 2 },
+            "unbounded_scenarios_completed": outs.iter().filter(|o| o.sc.preemption_bound >= 1000 && o.code == 0).map(|o| o.sc.name.clone()).collect::<Vec<_>>(),
             "first_conformance_failure": first_conf,
             "per_scenario": Value::Object(per_scenario), "model_instances": Value::Object(model_rows),
             "model_selftest_seeded_defects": Value::Object(selftest),
